@@ -71,6 +71,7 @@ import CxxModel.Theorems.TopLevel
 import CxxModel.GenCfg
 import CxxModel.Theorems.FieldDecls
 import CxxModel.Theorems.MethodDecl
+import CxxModel.Theorems.WholeParse
 namespace Cxx
 
 theorem C03_access_tracks (h : List BOp) (d : Nat) (hd : d < (brun h).length) :
@@ -352,5 +353,69 @@ theorem C03_toplevel_method (env : Env) (hc : env.cfg = genLexCfg) (F D : Nat) (
     htok hty htv hall hy0 hops hopsv hy ha htx hx hxv hto hop hallp hlastp hlF hcp hcpv hyp hFp hyq hsemi hs hsv hFq hF
 
 end
+
+/-! ### whole class bodies -/
+
+/-- **C03 through whole class bodies** (`Theorems/Members.lean`, `MemberKinds.lean`): in the callbacks
+    of a class body of ANY length, the member at ANY position is reported under the access level
+    left by the members before it … -/
+theorem C03_member_access_level {env : Env} {F : Nat} {c : P.Core} {blk : Block} {rest : List Block}
+    (pre : List (Member env F c)) (m : Member env F c) (post : List (Member env F c)) (acc : String) (evs : List Event)
+    (h : MSeqEv blk rest (pre ++ m :: post) acc evs) :
+    ∃ (e1 g e2 : List Event) (blk' : Block), evs = e1 ++ g ++ e2 ∧ blk.SameButLocAcc blk' ∧ m.Ev blk' rest (accAfter pre acc) g :=
+  MSeqEv.at_member pre m post acc evs h
+
+/-- … and that level is the LATEST access specifier's: after `… kw: m₁ … mₖ` (the `mᵢ` not access
+    specifiers) it is `kw`, whatever came before; with no specifier at all it is the class key's
+    default (`C03_default_access_kept`) -/
+theorem C03_latest_specifier_wins {env : Env} (hp : RulesProgress env.cfg = true) {F D : Nat}
+    (pre post : List (Member env F (P.core F (D + 1 + 1 + 1 + 1)))) (kw colon : Tok) (acc : String)
+    (hpost : ∀ m ∈ post, m.accOut = id) :
+    accAfter (pre ++ Member.accessSpec env hp F D kw colon :: post) acc = kw.value :=
+  accAfter_spec hp pre post kw colon acc hpost
+
+theorem C03_default_access_kept {env : Env} {F : Nat} {c : P.Core} (ms : List (Member env F c)) (acc : String)
+    (h : ∀ m ∈ ms, m.accOut = id) : accAfter ms acc = acc :=
+  accAfter_id ms acc h
+
+/-- a class body run from any state inside the class: all members' iterations run, one group of
+    callbacks per member, in order, each under the access level in force at that point -/
+theorem C03_class_body (env : Env) (F : Nat) (c : P.Core) (ms : List (Member env F c)) (w : World) (b' : Buf) (blk : Block)
+    (rest : List Block) (acc : String) (hst : w.stack = blk :: rest) (hk : blk.hdr.kind = .cls) (hacc : blk.access = some acc)
+    (hmu : w.muted = false) (hat : MSeqAt ms w.buf b') :
+    ∃ (w7 : World) (evs : List Event), RanC env F c w (mseqSize ms) b' blk rest (accAfter ms acc) evs w7 ∧
+      MSeqEv blk rest ms acc evs :=
+  mseq_sound ms w b' blk rest acc hst hk hacc hmu hat
+
+/-- **the whole run on `key N { members };`**: the class's start and end callbacks around the
+    members' callbacks, which are read under the class key's default access level until a
+    specifier changes it -/
+theorem C03_class_source (env : Env) (hc : env.cfg = genLexCfg) (hnf : env.faultAt = none) (hskip : ∀ i h, env.skip i h = false)
+    (F D : Nat) (kw first : Tok) (pairs : List (Tok × Tok)) (ms : List (Member env F (P.core F (D + 1 + 1 + 1 + 1))))
+    (filename : String) (content : Str) (bE bEE : Buf)
+    (hat : (Item.cls env (by rw [hc]; exact gen_rules_progress) hnf F D hskip kw first pairs ms).At
+      { tokbuf := [], lex := { rest := content, filename := some filename } } bE)
+    (heof : tokenEofOk env.cfg bE = .ok (none, bEE)) (hF : mseqSize ms + 2 + 1 ≤ F) :
+    ∃ (wF : World) (start : Event) (evs : List Event),
+      runParse env filename content (P.parserProg F (D + 1 + 1 + 1 + 1)) = (wF, .ok) ∧ wF.events = start :: evs ∧
+      start.kind = .parseStart ∧
+      BlockEvents globalBlock
+        (fun h => h.kind = .cls ∧ h.access = some (defaultAccess kw.value) ∧
+          h.cls.typename = .mk (.name first.value none :: pairs.map (fun p => .name p.2.value none)) (some kw.value) false)
+        (fun nb mid => MSeqEv nb [globalBlock] ms (defaultAccess kw.value) mid) evs := by
+  obtain ⟨wF, start, evs, h1, h2, h3, h4, _⟩ := parse_source env (by rw [hc]; exact gen_rules_progress) hnf F (D + 1 + 1 + 1 + 1)
+    (Item.cls env (by rw [hc]; exact gen_rules_progress) hnf F D hskip kw first pairs ms) filename content bE bEE hat heof hF
+  exact ⟨wF, start, evs, h1, h2, h3, h4⟩
+
+/-! non-vacuity of `C03_latest_specifier_wins` / `C03_member_access_level`: the members
+    `f; public: g; private: h;` — `h` is reported under `private`, `g` under `public`, `f` under the
+    level the body started with -/
+example (env : Env) (hp : RulesProgress env.cfg = true) (hnf : env.faultAt = none) (F D : Nat) (v1 v2 : VarDeclToks)
+    (pub c1 priv c2 : Tok) (acc : String) :
+    accAfter [Member.field env hp hnf F D v1, Member.accessSpec env hp F D pub c1, Member.field env hp hnf F D v2,
+      Member.accessSpec env hp F D priv c2] acc = priv.value ∧
+    accAfter [Member.field env hp hnf F D v1, Member.accessSpec env hp F D pub c1] acc = pub.value ∧
+    accAfter ([] : List (Member env F (P.core F (D + 1 + 1 + 1 + 1)))) acc = acc :=
+  ⟨rfl, rfl, rfl⟩
 
 end Cxx
